@@ -134,6 +134,7 @@ def plan(tier, seed):
         (corner("unit8", prefix=[("config_dmm", "m2", "dmm_0"), ("config_dmm", "m1", "dmm_0"), ("declare", "g", "rydberg_global")],
                 qubits=3, name="two-maps-on-one-dmm-id"),
          A.render(l=None, dmm="dmm_0", eom=False) + [("add_dmm", ["C", 40, -0.75], "dmm_0_1", "no-delay")], 3),
+        (corner("mixed", prefix=A.GLD, qubits=3, detmap_jitter=-4e-7, name="mixed-dmm-map-from-its-own-array"), A.render(dmm="dmm_0", eom=False), 2),
         (corner("mixed", prefix=A.GLD, qubits=3, qid_alias={"q0": 2, "q1": 0, "q2": 1}, name="mixed-dmm-int-ids-out-of-order"),
          A.render(dmm="dmm_0", eom=False), 3),
         (corner("unit8", prefix=A.GR, qubits=3, qid_alias={"q0": "z", "q1": "a", "q2": "m"}, name="unit8-str-ids-out-of-order"),
